@@ -26,7 +26,7 @@ end
 mutual
 /-- the value has the shape of the type (what reflect guarantees for a Go value of that type) -/
 def fits : Ty → GoVal → Bool
-  | .prim _, _ => true
+  | .prim _, .scalar _ => true
   | .ptr _, .ptr none => true
   | .ptr t, .ptr (some x) => fits t x
   | .slice _, .slice none => true
